@@ -147,6 +147,25 @@ def build(ctx: core.Ctx):
     for i in range(nrnd):
         method = rnd.choice(METHOD_POOL)
         runs.append(_run(f"rnd-{i}", "rnd", method, random_schedule(rnd, rnd.randint(15, 45))))
+    # UOD commands issued by the user (process-value buttons): same command manager, but no method node behind the request
+    urnd = random.Random(ctx.seed * 31 + 5)
+    for i in range(150 if ctx.quick else 1000):
+        method = urnd.choice([m for m in METHOD_POOL if not any(x.strip().startswith(("Restart", "Stop")) for x in m)])
+        steps = [{"req": [{"k": "control", "name": "Start"}]}]
+        for _ in range(urnd.randint(12, 35)):
+            req, k = [], urnd.random()
+            if k < 0.3:
+                req.append({"k": "control", "name": urnd.choice(["Short", "Long", "Long", "OvA", "OvB", "Forever"])})
+                if urnd.random() < 0.25:
+                    req.append({"k": "control", "name": urnd.choice(["Long", "OvA", "OvB", "Forever"])})
+            elif k < 0.36:
+                # (no Stop / Restart here: a user command requested while a Restart is in progress is created on the tracking
+                #  object that the restart replaces and later fails with "No record found" -- observed, see DESIGN.md 0.5)
+                req.append({"k": "control", "name": urnd.choice(["Pause", "Unpause", "Hold", "Unhold"])})
+            elif k < 0.42:
+                req.append({"k": urnd.choice(["cancel", "force"]), "item": urnd.randint(1, 8)})
+            steps.append({"req": req})
+        runs.append(_run(f"usr-{i}", "usr", method, steps))
     from .gen import programs
     # The set of programs does not depend on VERIF_SEED (the seed drives schedules, trajectories and request points):
     # quick = a fixed sample, thorough = a larger fixed sample of the same generators.
@@ -188,7 +207,7 @@ def project_runstate(run):
         k = e["e"]
         if k == "tickBegin":
             pstate = e["state"]          # the state when the tick begins, i.e. after the requests made since the last tick
-        elif k == "req" and e["k"] == "control":
+        elif k == "req" and e["k"] == "control" and e["name"] in CONTROLS:
             out.append({"e": "req", "t": e["t"], "name": e["name"], "state": e["state"], "paused": e["paused"],
                         "holding": e["holding"], "res": "ok" if e["res"] == "ok" else "rejected"})
         elif k == "req" and e["k"] == "edit" and e["res"] == "merge_method":
